@@ -76,6 +76,23 @@ pub fn library_tids() -> Vec<u32> {
     all_tids().into_iter().filter(|t| !h.contains(t)).collect()
 }
 
+/// Listings of /proc/self/task that found no library thread although one existed (seen by the confirmation scans).
+pub static SCAN_GLITCHES: std::sync::atomic::AtomicU64 = std::sync::atomic::AtomicU64::new(0);
+
+/// "No library thread exists" has to be stable: 40 further listings over at least 80 ms must all agree. (A thread that
+/// is replaced by a successor exists, together with it, for a while; a listing that races with the hand-over can miss
+/// both, consecutive listings cannot.)
+pub fn confirm_no_library_thread(excluding: &BTreeSet<u32>) -> bool {
+    for _ in 0..40 {
+        std::thread::sleep(Duration::from_millis(2));
+        if library_tids().into_iter().any(|t| !excluding.contains(&t)) {
+            SCAN_GLITCHES.fetch_add(1, std::sync::atomic::Ordering::Relaxed);
+            return false;
+        }
+    }
+    true
+}
+
 /// Start time of a task (clock ticks since boot, field 22 of /proc/self/task/<tid>/stat): together with the tid it
 /// identifies a thread even when the kernel reuses the tid later.
 pub fn task_starttime(tid: u32) -> Option<u64> {
@@ -138,6 +155,12 @@ pub fn watch(mut done: impl FnMut() -> bool, min_samples: u32, min_span: Duratio
         let tids = library_tids();
         if tids.is_empty() {
             // re-check done() once: the last thread may have delivered and exited between the two reads
+            if done() {
+                return None;
+            }
+            if !confirm_no_library_thread(&BTreeSet::new()) {
+                continue;
+            }
             if done() {
                 return None;
             }
